@@ -72,6 +72,7 @@ func replayFile(path string) int {
 		json.Unmarshal(rec.Replay["results"], &p.Results)
 		json.Unmarshal(rec.Replay["mode"], &p.Mode)
 		json.Unmarshal(rec.Replay["strlen"], &p.StrLen)
+		json.Unmarshal(rec.Replay["files"], &p.Files)
 		var m gosx.Model
 		json.Unmarshal(rec.Replay["model"], &m)
 		ok, detail := c.replayProg(p, m)
